@@ -41,9 +41,20 @@ def load_index():
     return index
 
 
+NATIVE_INFO = {}
+
+
+def native_root():
+    """Tree that the native parts import scriptplan from (see native/overlay.py)."""
+    from native import overlay
+    info = overlay.native_root(source.repo_root())
+    NATIVE_INFO.update(info)
+    return info["root"]
+
+
 def native_call(jobs, timeout=600):
     env = dict(os.environ)
-    env["VERIF_REPO"] = source.repo_root()
+    env["VERIF_REPO"] = native_root()
     p = subprocess.run(["/venv/bin/python", os.path.join(HERE, "native", "run.py")], input=json.dumps({"jobs": jobs}),
                        capture_output=True, text=True, timeout=timeout, env=env, cwd=HERE)
     if p.returncode != 0:
@@ -147,6 +158,32 @@ def run_contract(c, tier, timeout_ms):
         doc["results"].append({"id": o.id, "kind": o.kind, "path": getattr(o, "path", ""), "line": o.line, "note": o.note,
                                "status": r["status"], "time": r["time"], "backends": r["backends"],
                                "parts": [{k: v for k, v in p.items()} for p in r["parts"]]})
+    # thorough tier: an independent back end (cvc5) re-checks a sample of the obligations that z3 discharged.
+    # cvc5 `unsat` = agreement, `unknown`/timeout = no second opinion, `sat` = DISAGREEMENT (checker error, exit 3).
+    if tier == "thorough":
+        import random as _r
+        from concurrent.futures import ThreadPoolExecutor
+        cand = [r["obl"] for r in res if r["status"] == "unsat" and r["obl"].kind in ("ensures", "inv-pres", "site", "cut", "relational")]
+        _r.Random(len(cand)).shuffle(cand)
+        texts = []
+        for o in cand[:12]:
+            for (sid, ti, _tf) in solve.prepare(o, ()):
+                if ti is not None:
+                    texts.append((sid, ti))
+        texts = texts[:16]
+        second = {"sampled": len(texts), "agree": 0, "no_opinion": 0, "disagree": []}
+        if texts:
+            with ThreadPoolExecutor(8) as tp:
+                for (sid, _t), ans in zip(texts, tp.map(lambda x: solve.cvc5_recheck(x[1], 10000), texts)):
+                    if ans == "unsat":
+                        second["agree"] += 1
+                    elif ans == "sat":
+                        second["disagree"].append(sid)
+                    else:
+                        second["no_opinion"] += 1
+        doc["second_backend"] = second
+        for sid in second["disagree"]:
+            doc["errors"].append(f"back ends disagree on {sid}: z3 unsat, cvc5 sat")
     # clause coverage guard
     if not g.undecided and not c.trusted:
         labels = {o.id.split("/", 1)[1] for o in g.obls}
@@ -224,8 +261,12 @@ def main():
     canary = {"checked": 0, "vacuous": []}
     cover = {"paths": 0, "vacuous": []}
     cache_hits = 0
+    second = {"sampled": 0, "agree": 0, "no_opinion": 0, "disagree": []}
     for c in contracts:
         doc = run_contract_cached(c, tier, timeout_ms)
+        for k_ in ("sampled", "agree", "no_opinion"):
+            second[k_] += doc.get("second_backend", {}).get(k_, 0)
+        second["disagree"] += doc.get("second_backend", {}).get("disagree", [])
         cache_hits += 1 if doc.get("_cached") else 0
         gens[c.key] = doc
         functions.append(doc["function"])
@@ -334,7 +375,7 @@ def main():
     if known_wit:
         try:
             env = dict(os.environ)
-            env["VERIF_REPO"] = source.repo_root()
+            env["VERIF_REPO"] = native_root()
             p = subprocess.run(["/venv/bin/python", os.path.join(HERE, "witnesses", "run.py")] + [k["witness"] for k in known_wit],
                                capture_output=True, text=True, timeout=600, env=env, cwd=HERE)
             witness_report = json.loads(p.stdout)
@@ -397,7 +438,7 @@ def main():
     for b in meta.get("bounded", []):
         try:
             env = dict(os.environ)
-            env["VERIF_REPO"] = source.repo_root()
+            env["VERIF_REPO"] = native_root()
             env["VERIF_TIER"] = tier
             env["VERIF_SEED"] = str(seed)
             p = subprocess.run(["/venv/bin/python", os.path.join(HERE, "bounded", b["script"])] + b.get("args", []),
@@ -466,11 +507,13 @@ def main():
         "undecided": undecided[:40],
         "checker_errors": errors[:20],
         "canary": canary,
+        "second_backend_cvc5_recheck_of_discharged": second if tier == "thorough" else "thorough tier only",
         "path_cover": cover,
         "contract_results_reused_from_cache": cache_hits,
         "known_findings_confirmed": known_lines,
         "known_finding_witnesses": witness_report,
         "model_validation": model_validation,
+        "native_tree": {k: v for k, v in NATIVE_INFO.items()},
         "engine_cross_check": {**xcheck, "samples": xsamples[:3]},
         "bounded_standins": [{k: v for k, v in b.items() if k != "failures"} | {"failures": len(b.get("failures", []))}
                              for b in bounded],
